@@ -905,7 +905,10 @@ def pretty_print_merge_decision(base, decision, config=DefaultConfig):
     config.out.write("%s%sdecision at %s:%s\n" % (
         config.INFO.replace("##", "===="), confnote, path, config.RESET))
 
-    diff_keys = ("diff", "local_diff", "remote_diff", "custom_diff", "similar_insert")
+    # Note: "similar_insert" is a diff from the inserted local item to the
+    # inserted remote item, not a diff of base, so it cannot be presented
+    # against base like the others; it is printed with the other fields
+    diff_keys = ("diff", "local_diff", "remote_diff", "custom_diff")
     exclude_keys = set(diff_keys) | {"common_path", "action", "conflict"}
     pretty_print_dict(decision, exclude_keys, prefix, config)
 
